@@ -427,6 +427,9 @@ def trivial_cast(value, type_: Type[AnyXSDType]) -> AnyXSDType:  # workaround. W
     :param value: The value to cast
     :param type_: Target type to cast into. Must be an XSD type from this module
     """
+    if isinstance(value, bool) and type_ is not Boolean:
+        # bool is a subclass of int in Python, but xs:boolean is not derived from xs:integer: True is not the integer 1
+        raise TypeError("{} cannot be trivially casted into {}".format(repr(value), type_.__name__))
     if isinstance(value, type_):
         return value
     for baseclass in (int, float, str):
